@@ -205,6 +205,7 @@ def singleHeader (r : PReq) (name v : Bytes) : PRes :=
   | .transferEncoding =>
     if r.version ≠ 1 then .error 400
     else if !eqIcase v (ofString "chunked") then .error 501
+    else if r.bodyLen = -1 then .error 400       -- a second Transfer-Encoding: chunked field
     else .ok { r with bodyLen := -1 }
   | .other => .ok (appendHeader r name v)
 
@@ -343,7 +344,7 @@ def fieldOf (o : Opts) (phys : List Bytes) : Except Nat (Bytes × Bytes) :=
 def applyField (o : Opts) (r : PReq) (f : Bytes × Bytes) : PRes :=
   let (lc, v) := f
   if v.isEmpty then
-    (if lc = ofString "content-length" then .error 400 else .ok r)
+    (if lc = ofString "content-length" || lc = ofString "transfer-encoding" then .error 400 else .ok r)
   else if o.headerStrict && v.any lineCharInvalidStrict then .error 400
   else singleHeader r lc v
 
@@ -508,6 +509,8 @@ def parseHead (o : Opts) (maxField : Nat) (schemePort : Nat) (block : Bytes) : R
       match parseReqline o rl (block.take len) with
       | .error e => .err e
       | .ok r0 =>
+        -- http_request_parse_headers(): in strict mode the blank line that ends the head must be CRLF too
+        if o.headerStrict && block.getD (len - 2) 0 != cr then .err 400 else
         match parseHeaders o r0 fields with
         | .error e => .err e
         | .ok r1 =>
